@@ -4,6 +4,7 @@
  *   a / b = the destination IS the first / second input (aliasing).
  */
 #include "common.h"
+#include <limits.h>
 #include <poly.h>
 #include <integer.h>
 #include <rational.h>
@@ -119,6 +120,7 @@ static void do_int_case(void) {
     break; }
   case 13: { /* add_mul_int */
     int m = (int)rnd_in(-50, 50);
+    if (chance(12)) { static const int edge[] = { INT_MIN, INT_MIN + 1, INT_MAX, INT_MAX - 1, -65536, 65536 }; m = edge[rnd(6)]; }
     mpz_ptr acc = dk == 2 ? a : s;
     sb_begin("int", "addmulint"); sb_sp(); ring_token(ri); sb_sp(); sb_mpz(acc); sb_sp(); sb_mpz(a); sb_sp(); sb_long(m); sb_arrow();
     lp_integer_add_mul_int(K, acc, a, m);
